@@ -11,7 +11,8 @@ Binary == {[fam |-> "binary", op |-> op, form |-> f, n |-> n, dr |-> dr] :
 Special == {[fam |-> "special", form |-> f, n |-> n, s |-> si] : f \in Forms, n \in 0..NMax, si \in {4, 0, 1, 2, 7, 8}}
 Unary == {[fam |-> "unary", n |-> n] : n \in 0..NMax}
 Reduce == {[fam |-> "reduce", n |-> n] : n \in 0..NMax}
-Init == c \in Binary \cup Special \cup Unary \cup Reduce
+Quarter == {[fam |-> "quarter", n |-> n] : n \in 0..NMax}
+Init == c \in Binary \cup Special \cup Unary \cup Reduce \cup Quarter
 Next == UNCHANGED c
 Spec == Init /\ [][Next]_c
 
@@ -22,6 +23,12 @@ Inv_Local == (c.fam = "binary" /\ c.dr = 0 /\ c.n >= 2) =>
    LET l == LVec(c.n)  r == RVec(c.n)  l2 == [l EXCEPT ![1] = 1000]
        a == Meaning(c.form, c.op, l, r, 7)  b == Meaning(c.form, c.op, l2, r, 7) IN
    \A i \in 2..c.n : a.v[i] = b.v[i]
+
+\* the integer-valued maps on quarters: floor <= round <= ceil, round is within a half, a tie moves away from zero, round is odd
+Inv_Rounding == c.fam = "quarter" => \A i \in 1..c.n : LET q == QVec(c.n)[i]  r == RoundQ(q) IN
+   /\ FloorQ(q) <= r /\ r <= CeilQ(q) /\ CeilQ(q) - FloorQ(q) = (IF q % 4 = 0 THEN 0 ELSE 1)
+   /\ AbsI(4 * r - q) <= 2 /\ (AbsI(4 * r - q) = 2 => 4 * AbsI(r) > AbsI(q))
+   /\ RoundQ(0 - q) = 0 - r /\ FloorQ(0 - q) = 0 - CeilQ(q)
 
 SIdxL(n) == [i \in 1..n |-> (5 * i + 8) % NSpecial]          \* every table entry appears as a left operand from n = 12 on (-0.0 first)
 SIdxR(n) == [i \in 1..n |-> (7 * i + 2) % NSpecial]
@@ -41,6 +48,11 @@ Out ==
           exp |-> MeaningIdx(c.form, SIdxL(c.n), SIdxR(c.n), c.s).v]
     [] c.fam = "unary" -> [fam |-> "unary", n |-> c.n, x |-> SIdxL(c.n),
                            shapes |-> IF c.n = 0 THEN <<>> ELSE SetToSeq(Factorizations(c.n))]
+    [] c.fam = "quarter" ->
+         LET q == QVec(c.n) IN
+         [fam |-> "quarter", n |-> c.n, q |-> q, floor |-> [i \in 1..c.n |-> FloorQ(q[i])], ceil |-> [i \in 1..c.n |-> CeilQ(q[i])],
+          round |-> [i \in 1..c.n |-> RoundQ(q[i])], signum |-> [i \in 1..c.n |-> SignQ(q[i])], abs4 |-> [i \in 1..c.n |-> AbsI(q[i])],
+          shapes |-> IF c.n = 0 THEN <<>> ELSE SetToSeq(Factorizations(c.n))]
     [] c.fam = "reduce" ->
          LET x == RedX(c.n)  y == RedY(c.n)  p == PrdX(c.n) IN
          [fam |-> "reduce", n |-> c.n, x |-> x, y |-> y, p |-> p,
